@@ -312,7 +312,7 @@ func (b *Bridge) Sign(o *Oracle, checkpoint []byte) string {
 	return hex.EncodeToString(sig)
 }
 
-func (b *Bridge) GravityID() string { return b.K.GetGravityID(b.C.Ctx) }
+func (b *Bridge) GravityID() string { return b.K.GetParams(b.C.Ctx).GravityId } // read from the parameters, not through the handlers' accessor
 
 func (b *Bridge) OracleSetCheckpoint(set *crosschaintypes.OracleSet) []byte {
 	var cp []byte
